@@ -26,7 +26,7 @@ META = {
 }
 
 
-def _md(names, dt, temp, seed, stub, steps, velocities=None, coords=None, remove_com=None, sp_over=None, engine="basic", k=4, record=False, molid=None):
+def _md(names, dt, temp, seed, stub, steps, velocities=None, coords=None, remove_com=None, sp_over=None, engine="basic", k=4, record=False, molid=None, reuse_P=True):
     """run the REAL integrator in-process; returns per-step phase space (from HDF5) + thermo"""
     import torch
 
@@ -64,13 +64,14 @@ def _md(names, dt, temp, seed, stub, steps, velocities=None, coords=None, remove
                 return r
             md.one_step = w
         with contextlib.redirect_stdout(io.StringIO()):
-            md.run(mol, steps, seed=seed, remove_com=remove_com)
+            md.run(mol, steps, seed=seed, remove_com=remove_com, reuse_P=reuse_P)
         res = {"mass": mol.mass.detach().numpy()[..., 0].copy(), "minv": mol.mass_inverse.detach().numpy()[..., 0].copy(), "species": s, "rec": rec, "mols": {}}
         for m in (list(molid) if molid is not None else range(len(names))):
             o = mdh.read_h5(os.path.join(d, f"md.{m}.h5"))
             res["mols"][m] = {g: o[g]["values"] for g in mdh.H5_STREAMS}
         res["final"] = (mol.coordinates.detach().numpy().copy(), mol.velocities.detach().numpy().copy())
         res["ndof"] = float(np.asarray(md.n_dof).reshape(-1)[0]) if md.n_dof is not None else None
+        res["ndof_all"] = np.asarray(md.n_dof, dtype=float).reshape(-1).tolist() if md.n_dof is not None else None
         return res
     finally:
         MD.esdriver = old
@@ -81,7 +82,8 @@ def probe_conservation(inp: Dict[str, Any]) -> Dict[str, Any]:
     """linear/angular momentum to round-off; thermo rows = function of the stored vectors of the same step"""
     import seqm.MolecularDynamics as MD
 
-    r = _md(inp["names"], inp["dt"], inp.get("temp", 300.0), inp.get("seed", 1), inp.get("stub", False), inp["steps"], sp_over={"method": inp.get("method", "AM1")}, molid=inp.get("molid"))
+    r = _md(inp["names"], inp["dt"], inp.get("temp", 300.0), inp.get("seed", 1), inp.get("stub", False), inp["steps"], sp_over=dict({"method": inp.get("method", "AM1")}, **(inp.get("sp_over") or {})), molid=inp.get("molid"),
+            remove_com=tuple(inp["remove_com"]) if inp.get("remove_com") else None, reuse_P=inp.get("reuse_P", True))
     bad = []
     kinds = set()
     C = MD.CONSTANTS
@@ -97,16 +99,18 @@ def probe_conservation(inp: Dict[str, Any]) -> Dict[str, Any]:
         if np.abs(P - P[0]).max() > 1e-11 * scale * nat:
             bad.append(f"mol{m}: linear momentum drifts by {np.abs(P - P[0]).max():.2e}"); kinds.add("linear")
         lscale = float(np.abs(mass[None, :, None] * np.cross(X, V)).max()) + 1e-30
-        if np.abs(L - L[0]).max() > inp.get("tol_L", 2e-9) * max(1.0, lscale):
+        # (forces on an excited surface are torque free only to the accuracy of the iterative excited-state solver)
+        if np.abs(L - L[0]).max() > inp.get("tol_L", 2e-7 if (inp.get("sp_over") or {}).get("excited_states") else 2e-9) * max(1.0, lscale):
             bad.append(f"mol{m}: angular momentum drifts by {np.abs(L - L[0]).max():.2e}"); kinds.add("angular")
         data = r["mols"][m]["data"]  # T, Ek, Ep, dipole
         Ek = (0.5 * mass[None, :, None] * V ** 2).sum((1, 2)) * C.KINETIC_ENERGY_SCALE
         if np.abs(Ek - data[:, 1]).max() > 1e-12 * max(1.0, np.abs(Ek).max()):
             bad.append(f"mol{m}: stored Ek is not the kinetic energy of the stored velocities of the same step ({np.abs(Ek - data[:, 1]).max():.2e})"); kinds.add("bookkeeping")
-        T = Ek * C.TEMPERATURE_SCALE / (0.5 * 3 * nat)
+        # degrees of freedom in force for this run (3N, minus 3 or 6 when centre-of-mass motion is removed)
+        T = Ek * C.TEMPERATURE_SCALE / (0.5 * ((r["ndof_all"][m] if len(r["ndof_all"]) > m else r["ndof_all"][0]) if r.get("ndof_all") and inp.get("remove_com") else 3 * nat))
         if np.abs(T - data[:, 0]).max() > 1e-10 * max(1.0, np.abs(T).max()):
             bad.append(f"mol{m}: stored T inconsistent with stored velocities ({np.abs(T - data[:, 0]).max():.2e})"); kinds.add("bookkeeping")
-        if not inp.get("stub", False):
+        if not inp.get("stub", False) and not inp.get("sp_over"):
             # potential energy row = energy of the stored coordinates: recompute two rows with the real engine
             for row in (0, len(X) - 1):
                 e = esh.run(np.array([esh.GEOMS[nm][0]]), np.array([X[row]]), esh.settings(method=inp.get("method", "AM1"), eps=1e-10))["Etot"][0]
@@ -286,6 +290,11 @@ def gen_cases(ctx: Ctx):
     cases = []
     cases.append(("conservation", {"names": ["h2o"], "dt": 0.5, "steps": 8, "stub": False, "seed": int(rng.integers(1, 999))}))
     cases.append(("conservation", {"names": ["h2o", "ch4"], "dt": 0.8, "steps": 25, "stub": True, "seed": int(rng.integers(1, 999))}))
+    # centre-of-mass removal modes and strides, density reuse off, excited active surface (real engine)
+    extra = [{"names": ["h2o"], "remove_com": ["angular", 2], "reuse_P": True}, {"names": ["nh3", "h2o"], "remove_com": ["linear", 1], "reuse_P": False},
+             {"names": ["h2o"], "sp_over": {"excited_states": {"n_states": 2, "method": "cis"}, "active_state": 1}}, {"names": ["ch4"], "remove_com": ["angular", 3], "reuse_P": False}]
+    for e_ in (extra if ctx.thorough else [extra[ctx.seed % 2], extra[2]]):
+        cases.append(("conservation", dict(e_, dt=float(rng.choice([0.25, 0.5])), steps=6, stub=False, seed=int(rng.integers(1, 999)), method=str(rng.choice(["AM1", "PM3"])))))
     # output restricted to a SUBSET of the batch (molid not [0..n-1]): the written thermo rows must still be those of the written molecule (real engine)
     cases.append(("conservation", {"names": [["ch4", "ch2o"], ["h2o", "h2", "nh3"]][ctx.seed % 2], "molid": [[1], [2, 0]][ctx.seed % 2], "dt": 0.5, "steps": 3, "stub": False, "seed": int(rng.integers(1, 999)),
                                    "method": str(rng.choice(["AM1", "PM3"]))}))
